@@ -25,7 +25,9 @@
      asynchronous).  The list of rounds is the fuel of the loop: if the loop wants another round and the script has
      none, VPending.
    * set_shareholders: `assert len(buckets) == sum(len(tracker.buckets))` fails when two trackers hold a writer for
-     the same share number: verdict VAssert (AssertionError, not an unhappiness error; nothing is aborted).
+     the same share number: verdict VAssert (AssertionError, not an unhappiness error; nothing is aborted).  Since
+     /repo 111e37b _allocation_for does not ask for a share another tracker holds, so this needs a server that
+     allocates a share it was not asked for (Props/C06.v: honest_upload_never_asserts).
    * Encoder: a list of write rounds (put_header, each segment, the four hash/extension stages), each a list of answers
      in arrival order ([WOk]: buffered locally or written remotely and acknowledged; [WErr]), then the close round
      ([COk]; [CFlushErr]: the last buffered write failed, close was not sent; [CErr executed]: close was sent and the
@@ -209,10 +211,14 @@ Fixpoint phase1 (c : config) (resps : list (N * ex_resp)) (pending : list N) (st
   end.
 
 (* ---- phase 2 *)
-(* _allocation_for: the share numbers the plan gives to tracker p *)
-Definition allocation_for (plan : list (N * option N)) (p : N) : list N :=
+(* _allocation_for: the share numbers the plan gives to tracker p, except those for which another tracker in
+   use_trackers already holds a bucket from an earlier round (each share is written to one server only) *)
+Definition held_elsewhere (st : sel) (p sh : N) : bool :=
+  existsb (fun q => negb (N.eqb q p) && memN sh (dm_get q (s_buckets st))) (s_use st).
+
+Definition allocation_for (st : sel) (plan : list (N * option N)) (p : N) : list N :=
   fold_left (fun acc e => match snd e with
-                          | Some q => if N.eqb p q then set_add (fst e) acc else acc
+                          | Some q => if N.eqb p q && negb (held_elsewhere st p (fst e)) then set_add (fst e) acc else acc
                           | None => acc
                           end) plan [].
 
@@ -238,7 +244,7 @@ Fixpoint send_queries (plan : list (N * option N)) (ts : list N) (st : sel) (sen
   match ts with
   | [] => (st, sent)
   | p :: rest =>
-      let ask := allocation_for plan p in
+      let ask := allocation_for st plan p in
       let st1 := with_homeless (set_diff (s_homeless st) ask) st in
       if negb (set_eqb ask (dm_get p (s_buckets st1))) || memN p (s_rtrackers st1)
       then send_queries plan rest (count_query st1) (sent ++ [(p, ask)])
@@ -376,15 +382,13 @@ Fixpoint ll_get (sh : N) (l : landlords) : option N :=
   | (s, p) :: r => if N.eqb sh s then Some p else ll_get sh r
   end.
 Definition ll_remove (sh : N) (l : landlords) : landlords := filter (fun e => negb (N.eqb sh (fst e))) l.
-(* buckets.update(tracker.buckets): a later tracker replaces the entry of an earlier one *)
-Definition ll_set (sh p : N) (l : landlords) : landlords :=
-  match ll_get sh l with
-  | Some _ => map (fun e => if N.eqb sh (fst e) then (sh, p) else e) l
-  | None => l ++ [(sh, p)]
-  end.
 
-Definition build_landlords (st : sel) : landlords :=
-  fold_left (fun acc b => ll_set (snd b) (fst b) acc) (sel_buckets st) [].
+(* CHKUploader.set_shareholders: `buckets.update(tracker.buckets)` for every tracker, then
+   `assert len(buckets) == sum(len(tracker.buckets))`: the dict has one entry per distinct share number, each tracker's
+   keys are distinct, so the assertion holds exactly when no share number occurs under two trackers; then the dict is
+   the list of all buckets. *)
+Definition build_landlords (st : sel) : landlords := map (fun b => (snd b, fst b)) (sel_buckets st).
+Definition has_dup_share (st : sel) : bool := negb (nodupN (map snd (sel_buckets st))).
 
 Record enc := {
   e_landlords : landlords;
@@ -507,9 +511,6 @@ Record result := {
 Definition mk_result (v : verdict) (st : sel) (qs : list (list (N * list N))) (sm : dmap) (pl : landlords) (lg : log) : result :=
   {| r_verdict := v; r_sel := st; r_queries := qs; r_found := transpose (s_existing st); r_servermap := sm;
      r_placed := pl; r_log := lg |}.
-
-Definition has_dup_share (st : sel) : bool :=
-  negb (Nat.eqb (length (build_landlords st)) (length (sel_buckets st))).
 
 Definition upload_run (c : config) (x : script) : result :=
   let '(st1, pending) := phase1 c (x_existing x) (trackers c) (sel_init c) in
